@@ -641,6 +641,9 @@ def translate(unix_src, ipc_src):
 
     emit_cond("send_single_packet", "send", ["data", ".", "len", "(", ")", "<="], ["data_len", "S"],
               {"len:data": "data_len", "__S": "S"})
+    # the two attachment-capacity guards of send(): plain, and with the dedicated fragment channel added
+    emit_cond("send_too_many", "send", ["fds", ".", "len", "(", ")", ">"], ["nfds"], {"len:fds": "nfds"})
+    emit_cond("send_too_many_frag", "send", ["fds", ".", "len", "(", ")", "+"], ["nfds"], {"len:fds": "nfds"})
 
     def first_int_arg(fn_tokens, callee):
         vals = [t[1] for t in fn_tokens]
